@@ -44,13 +44,13 @@ def verify(pid, name=None):
         suite_ok = 'test result: ok. 60 passed' in o and 'FAILED' not in o
         os.rename('/tmp/%s.rs.aside' % demo, demo_path)
     # 2. demo with patch
-    rc, o = sh('cargo test --offline %s --test %s 2>&1 | grep -E "^test result|panicked|FAILED" | head -10' % (release, demo), cwd=wt)
+    rc, o = sh('cargo test --offline %s --test %s 2>&1 | grep -E "^test result|^test .* FAILED" | head -20' % (release, demo), cwd=wt)
     log.append('demo with patch:\n' + o)
     demo_fails = 'test result: FAILED' in o
     # 3. demo without patch
     rc, o2 = sh('git apply -R out/patch.diff', cwd=wt)
     assert rc == 0, o2
-    rc, o = sh('cargo test --offline %s --test %s 2>&1 | grep -E "^test result|panicked|FAILED" | head -10' % (release, demo), cwd=wt)
+    rc, o = sh('cargo test --offline %s --test %s 2>&1 | grep -E "^test result|^test .* FAILED" | head -20' % (release, demo), cwd=wt)
     log.append('demo without patch:\n' + o)
     import re
     mm = re.search(r'test result: ok\. (\d+) passed', o)
